@@ -247,7 +247,8 @@ impl Sgr {
 
     /// Apply the parameter groups of one `CSI ... m`.  A group with more than
     /// one element was written with ':' separators.
-    pub fn apply(&mut self, groups: &[Vec<u16>]) {
+    pub fn apply(&mut self, groups: &[Vec<u16>]) -> bool {
+        let mut well_formed = true;
         let mut i = 0;
         while i < groups.len() {
             let g = &groups[i];
@@ -271,7 +272,11 @@ impl Sgr {
                             };
                             if let Some(ul) = ul {
                                 self.set_ul(ul);
+                            } else {
+                                well_formed = false;
                             }
+                        } else {
+                            well_formed = false;
                         }
                     }
                     38 | 48 | 58 => {
@@ -284,22 +289,28 @@ impl Sgr {
                             (Some(5), 3) => {
                                 if let Some(n) = byte(g[2]) {
                                     self.set_col(slot, Col::Idx(n));
+                                } else {
+                                    well_formed = false;
                                 }
                             }
                             (Some(2), 5) => {
                                 if let (Some(r), Some(gg), Some(b)) = (byte(g[2]), byte(g[3]), byte(g[4])) {
                                     self.set_col(slot, Col::Rgb(r, gg, b));
+                                } else {
+                                    well_formed = false;
                                 }
                             }
                             (Some(2), 6) => {
                                 if let (Some(r), Some(gg), Some(b)) = (byte(g[3]), byte(g[4]), byte(g[5])) {
                                     self.set_col(slot, Col::Rgb(r, gg, b));
+                                } else {
+                                    well_formed = false;
                                 }
                             }
-                            _ => {}
+                            _ => well_formed = false,
                         }
                     }
-                    _ => {}
+                    _ => well_formed = false,
                 }
                 continue;
             }
@@ -318,9 +329,12 @@ impl Sgr {
                             if let Some(n) = single(i + 1) {
                                 if let Some(n) = byte(n) {
                                     self.set_col(slot, Col::Idx(n));
+                                } else {
+                                    well_formed = false;
                                 }
                                 i += 2;
                             } else {
+                                well_formed = false;
                                 i = groups.len();
                             }
                         }
@@ -328,14 +342,18 @@ impl Sgr {
                             if let (Some(r), Some(g), Some(b)) = (single(i + 1), single(i + 2), single(i + 3)) {
                                 if let (Some(r), Some(g), Some(b)) = (byte(r), byte(g), byte(b)) {
                                     self.set_col(slot, Col::Rgb(r, g, b));
+                                } else {
+                                    well_formed = false;
                                 }
                                 i += 4;
                             } else {
+                                well_formed = false;
                                 i = groups.len();
                             }
                         }
                         _ => {
                             // malformed extended colour: xterm abandons the rest
+                            well_formed = false;
                             i = groups.len();
                         }
                     }
@@ -343,6 +361,7 @@ impl Sgr {
                 c => self.simple(c),
             }
         }
+        well_formed
     }
 
     /// Parse the text between `CSI` and `m` the way the VT parser groups it.
